@@ -132,12 +132,14 @@ CLAIMED = {
    text="Proof: MergeableConstraints.merge_group modelled with Python's failure modes explicit (optional slots, [0] on lists, short-circuit "
         "order, Except monad): for every non-empty group of node-kind constraints and every OR configuration it never raises and returns exactly "
         "the value of the total function the pipeline model uses; the call site always passes a non-empty group; a kernel-checked witness shows "
-        "that the variant without the length guard does raise. The output-parameter guard and the SHACL macro table are regenerated from the AST "
+        "that the variant without the length guard does raise; the subscripted increments of the counting passes (pass 2 per triple, class "
+        "profile per tuple, class counts) modelled with KeyError never raise and equal the defaulting updates of the pipeline model (witness: "
+        "the seeded lazy creation of counters does raise). The output-parameter guard and the SHACL macro table are regenerated from the AST "
         "(C20, C11). Tie: (a) the implementation's merge_group run in-process on every small group (exhaustive, both insertion orders, three OR "
         "configurations) vs MergeE.mergeGroupE; (b) Shexer.run vs output. Search: adversarial graphs x accepted configurations x {ShExC, SHACL} x "
         "{shex_graph, profile_graph} x six input syntaxes x shape maps; any exception or hang is the failing input.",
-   note="Trusts Lean's kernel, extract.py, harness. Only the merge stage carries a safety theorem; dictionary accesses of pass 2, parsers and "
-        "serialisers are covered by the crash search and the correspondence (partial). Findings F-C20-1, F-C20-3 (configurations accepted and "
+   note="Trusts Lean's kernel, extract.py, harness. The merge stage and the counting updates carry safety theorems; parsers, serialisers and "
+        "rdflib are covered by the crash search and the correspondence (partial). Findings F-C20-1, F-C20-3 (configurations accepted and "
         "failing at the first call).",
    technique="Lean 4 proof (failure-aware model refines to the total model) + exhaustive unit correspondence + crash search", design="5/C04"),
  "C06": dict(
